@@ -43,6 +43,22 @@ impl<S: Storage> InsertExecutor<S> {
         #[for_await]
         for chunk in child {
             let source = chunk?;
+            // a VECTOR array has no representation for NULL (the array builder panics on it)
+            for col in columns.iter() {
+                if !matches!(col.data_type(), DataType::Vector(_)) {
+                    continue;
+                }
+                let has_null = match self.column_ids.iter().position(|&id| id == col.id()) {
+                    Some(index) => {
+                        let src = source.array_at(index);
+                        (0..src.len()).any(|i| src.get(i).is_null())
+                    }
+                    None => true,
+                };
+                if has_null {
+                    return Err(ExecutorError::not_nullable());
+                }
+            }
             let chunk = Evaluator::new(&expr).eval_list(&source)?;
             // a fractional value must not be silently truncated into an integer column: the stored
             // value has to convert back to the inserted one
@@ -51,6 +67,17 @@ impl<S: Storage> InsertExecutor<S> {
                     continue;
                 };
                 let src = source.array_at(index);
+                // every value of a VECTOR(n) column has n elements (arrays of mixed lengths can not be
+                // processed together later)
+                if let (DataType::Vector(n), ArrayImpl::Vector(a)) = (col.data_type(), array) {
+                    if let Some(v) = a.iter().flatten().find(|v| v.len() != n) {
+                        return Err(ConvertError::Cast(
+                            v.to_string(),
+                            "a VECTOR of the column's length",
+                        )
+                        .into());
+                    }
+                }
                 // a DECIMAL(p, s) column holds at most `s` fractional and `p - s` integral digits
                 if let (DataType::Decimal(Some(p), Some(s)), ArrayImpl::Decimal(a)) =
                     (col.data_type(), array)
